@@ -441,7 +441,15 @@ func mutate(rng *rand.Rand, orig []item, prot *protection, tls13, tls12sig bool)
 			pre, post := append([]byte(nil), frag[:mi.Off]...), append([]byte(nil), frag[mi.Off+4+mi.Len:]...)
 			hdr := func(t byte, l int) []byte { return []byte{t, byte(l >> 16), byte(l >> 8), byte(l)} }
 			var repl []byte
-			switch rng.IntN(6) {
+			switch rng.IntN(9) {
+			case 6, 7, 8:
+				m.Kind = "hs-msg-degenerate"
+				alts := degenerateBodies(mi.Type, tls13, tls12sig, body)
+				if len(alts) == 0 {
+					alts = [][]byte{{}}
+				}
+				nb := alts[rng.IntN(len(alts))]
+				repl = append(hdr(mi.Type, len(nb)), nb...)
 			case 0:
 				m.Kind, repl = "hs-msg-delete", nil
 			case 1:
@@ -528,4 +536,53 @@ func applyEdits(w []wireRec, edits []wireEdit) (chunks [][]byte) {
 		}
 	}
 	return
+}
+
+// degenerateBodies returns well-formed but minimal / empty variants of a handshake message body:
+// the framing is consistent, so the message handlers behind the parsers see them.
+func degenerateBodies(typ byte, tls13, tls12sig bool, body []byte) [][]byte {
+	switch typ {
+	case 2: // ServerHello without extensions, with an empty extension block
+		if len(body) >= 35 {
+			n := 35 + int(body[34]) + 3
+			if n <= len(body) {
+				return [][]byte{append([]byte(nil), body[:n]...), append(append([]byte(nil), body[:n]...), 0, 0)}
+			}
+		}
+	case 4:
+		if tls13 {
+			return [][]byte{{0, 0, 0, 0, 0, 0, 0, 0, 0, 0, 0, 0, 0}, {0, 0, 0, 1, 0, 0, 0, 0, 0, 0, 1, 7, 0, 0}, {0xff, 0xff, 0xff, 0xff, 0, 0, 0, 0, 1, 0, 0, 1, 7, 0, 0}}
+		}
+		return [][]byte{{0, 0, 0, 0, 0, 0}, {0, 0, 0, 1, 0, 1, 7}}
+	case 8:
+		return [][]byte{{0, 0}, {}}
+	case 11:
+		if tls13 {
+			return [][]byte{{0, 0, 0, 0}, {0, 0, 0, 5, 0, 0, 0, 0, 0}, {1, 7, 0, 0, 0}, {0, 0, 0, 6, 0, 0, 1, 0x30, 0, 0}}
+		}
+		return [][]byte{{0, 0, 0}, {0, 0, 3, 0, 0, 0}, {0, 0, 4, 0, 0, 1, 0x30}}
+	case 12:
+		return [][]byte{{}, {3, 0, 23, 0, 0, 0}, {3, 0, 29, 0, 4, 1, 0, 0}, {3, 0, 23, 1, 4, 4, 1, 0, 0}, {0, 0, 0, 0, 0, 0, 0, 0}, {0, 1, 2, 0, 1, 2, 0, 1, 1, 0, 0}, {0, 1, 0, 0, 1, 0, 0, 1, 0, 0, 0}}
+	case 13:
+		if tls13 {
+			return [][]byte{{0, 0, 0}, {0, 0, 4, 0, 13, 0, 0}, {1, 9, 0, 0}}
+		}
+		if tls12sig {
+			return [][]byte{{1, 1, 0, 2, 4, 1, 0, 0}, {0, 0, 0, 0, 0}, {1, 64, 0, 2, 8, 7, 0, 0}, {1, 1, 0, 0, 0, 0}}
+		}
+		return [][]byte{{1, 1, 0, 0}, {0, 0, 0}, {2, 1, 64, 0, 2, 0, 0}}
+	case 15:
+		return [][]byte{{4, 1, 0, 0}, {8, 4, 0, 0}, {0, 0}, {8, 7, 0, 1, 0}}
+	case 16:
+		return [][]byte{{0, 0}, {0}, {1, 4}, {0, 1, 0}, {}}
+	case 20:
+		return [][]byte{{}, make([]byte, 12), make([]byte, 32), make([]byte, 48)}
+	case 22:
+		return [][]byte{{1, 0, 0, 0}, {0, 0, 0, 0}, {1, 0, 0, 1, 0x30}}
+	case 24:
+		return [][]byte{{0}, {1}, {2}, {}}
+	case 14, 0:
+		return [][]byte{{}, {0}}
+	}
+	return nil
 }
